@@ -39,7 +39,7 @@ try:
     verdicts = {}
     for prop in [a.prop] + [x for x in (a.also + ',' + a.holds).split(',') if x]:
         t0 = time.time()
-        p = subprocess.run([os.path.join(ROOT, 'check'), prop, '--no-evidence'], capture_output=True, text=True, env=dict(os.environ, VERIF_REPO=wt))
+        p = subprocess.run([os.path.join(ROOT, 'check'), prop, '--no-evidence'], capture_output=True, text=True, env=dict(os.environ, VERIF_REPO=wt, VERIF_NO_REPLAY_SEARCH='1'))
         lines = [l for l in p.stdout.splitlines() if l.startswith(('VIOLATION', 'OK', 'UNDECIDED', 'KNOWN'))]
         verdicts[prop] = {'exit': p.returncode, 'lines': [re.sub(r'replay=\S+', 'replay=…', l)[:300] for l in lines[:4]], 'wall_s': round(time.time() - t0, 1)}
     log['checks'] = verdicts
